@@ -88,6 +88,25 @@ def closed_estimator_exhaustive(divs_list):
     return run
 
 
+def closed_estimates_are_independent():
+    """an estimate handed out is the caller's own: editing it in place does not change what the estimator returns afterwards"""
+    import copy
+    from partitura.utils.music import estimate_symbolic_duration
+    n = 0
+    for divs in (1, 2, 4, 6, 12, 480):
+        for dur in range(1, 8 * divs + 1, max(1, divs // 4)):
+            first = estimate_symbolic_duration(dur, divs)
+            if not isinstance(first, dict):
+                continue
+            n += 1
+            keep = copy.deepcopy(first)
+            first["actual_notes"], first["normal_notes"], first["dots"], first["type"] = 3, 2, 7, "long"
+            again = estimate_symbolic_duration(dur, divs)
+            if again != keep:
+                return False, n, {"input": [dur, divs], "what": "after editing the first estimate in place the estimator returns %r instead of %r" % (again, keep)}
+    return True, n, ""
+
+
 def closed_split_helpers():
     from partitura.utils.music import find_smallest_unit, order_splits, find_tie_split, estimate_symbolic_duration
     n = 0
@@ -132,7 +151,8 @@ def _closed():
     else:
         divs = sorted(set(list(range(1, 25)) + [30, 32, 36, 48, 60, 64, 96, 120, 128, 192, 240, 256, 384, 480, 768, 840, 960]))
     return [("estimator_roundtrip_all_durations_for_%d_divisions_values" % len(divs), closed_estimator_exhaustive(divs)),
-            ("split_helpers_unit_grid_and_tilings", closed_split_helpers)]
+            ("split_helpers_unit_grid_and_tilings", closed_split_helpers),
+            ("estimates_are_independent_objects", closed_estimates_are_independent)]
 
 
 class _LazyClosed(list):
@@ -235,6 +255,9 @@ def _note_parts(tier):
     out.append(("gaps_divs16", lambda: G.build_part("P", 16, notes=[("a", 3, 21, "C", None, 4, 1, 1), ("b", 40, 50, "D", None, 4, 1, 1), ("c", 100, 27, "E", None, 4, 1, 1)], measures="auto")))
     out.append(("divisions_change_at_barline_under_held_note", lambda: G.build_part("P", 4, quarter_changes=[(16, 8)], notes=[("a", 12, 20, "C", None, 4, 1, 1), ("b", 0, 12, "E", None, 4, 1, 1), ("c", 32, 16, "G", None, 4, 1, 1)],
                                                                                        measures=[(0, 16), (16, 48)])))
+    # a grace note that is not linked to its main note (grace_next unset) although a note of its voice starts at its onset
+    out.append(("unlinked_grace_note_before_a_note_of_its_voice", lambda: G.build_part("P", 4, notes=[("a", 0, 8, "C", None, 4, 1, 1), ("b", 8, 8, "D", None, 4, 1, 1), ("c", 16, 16, "E", None, 4, 1, 1)],
+                                                                                        graces=[("g0", 8, "E", None, 5, 1, 1, None)], measures="auto")))
     if tier == "thorough":
         out.append(("divs480", lambda: G.build_part("P", 480, notes=[("a", 0, 2400, "C", None, 4, 1, 1), ("b", 2400, 600, "D", None, 4, 1, 1), ("c", 3000, 3615, "E", None, 4, 1, 1)], measures="auto")))
         out.append(("divs1", lambda: G.build_part("P", 1, notes=[("a", 0, 7, "C", None, 4, 1, 1), ("b", 7, 2, "D", None, 4, 1, 1)], measures="auto")))
